@@ -117,7 +117,12 @@ fn builder(
     WalTransactionBuilder::new(
         epoch,
         WalSegmentId::from_raw(1),
-        WalTransactionId::from_hash(digest(&format!("walkit:tx:{label}"))),
+        // the transaction id depends on position and kind only, not on the payload family, so a
+        // second log ("v1:…") has the same ids, LSNs and epoch and differs in payload content only
+        WalTransactionId::from_hash(digest(&format!(
+            "walkit:tx:{}",
+            label.split_once(':').filter(|(v, _)| v.starts_with('v')).map(|(_, r)| r).unwrap_or(label)
+        ))),
         kind,
         authority,
         chain.next_lsn,
